@@ -162,11 +162,14 @@ META["C07"] = dict(
 META["C17"] = dict(
     engine="lean+harness(res)",
     design_ref="DESIGN.md section 5, C17",
-    technique="shutdown specification evaluated on real processes (goroutine dump, /proc/self/fd, directory stamps) with collector cycles parked at hook points; Lean small-step lifecycle model (in progress)",
+    technique="Lean 4 proof over a small-step model of the stop/done handshakes (invariant over all schedules and configurations) + shutdown specification evaluated on real processes with collector cycles parked at hook points",
     text="Close is issued on stores with real background flusher and collectors while a cycle is parked at each of 31 named points; the "
          "harness observes that Close blocks until the cycle is released, and that afterwards no store goroutine, no descriptor and no "
-         "directory change remains; failing opens and repetition runs likewise. The small-step model of the stop/done handshakes and its "
-         "theorems (C17_close_quiescent, C17_no_fs_after_close) are being proved.",
+         "directory change remains; failing opens and repetition runs likewise. Proved over the small-step model "
+         "(Sth/Model/Lifecycle.lean: closer, flusher, both collector loops and cycles, channels closing/closed/stop/done/cycle-done, "
+         "cancelled contexts) for every configuration and schedule: Close returned => no background thread alive, every logged FS step "
+         "precedes the return and none follows in any continuation, second Close changes nothing, Close cannot return while a cycle "
+         "runs; negative witnesses for a loop that does not wait for its cycle and for Start racing Close.",
     note="Trusts: Lean kernel; the goroutine dump / procfs / stat observations of the harness; 70 ms observation window after Close.",
 )
 
@@ -180,4 +183,16 @@ META["C09"] = dict(
          "(abs preserved, Inv for the new bit size) is not yet proved; it rests on the proved C08 insertion theorems and C01 refinement. "
          "Known finding D13 (no atomic swap).",
     note=SEQ_NOTE,
+)
+
+META["C10"] = dict(
+    engine="lean+harness(seq,crash)",
+    design_ref="DESIGN.md section 5, C10",
+    technique="Lean 4 proofs of the pure upgrade core (re-chunking, offset remapping) + correspondence of chunk sizes/remapped locations with the real upgrade of generated legacy stores + fsck and map oracle + crash images of every upgrade step",
+    text="Proved for every record sequence, limit and offset: chunks concatenate to the input, no record is split, every chunk but the last "
+         "reaches the limit, record starts stay below the limit, a record's linear offset is remapped to exactly the chunk and offset where "
+         "it now starts, offsets beyond the primary are rejected. The real upgrade of generated legacy stores is compared with these "
+         "functions, its result is checked by the Lean fsck and the map oracle, and the model is re-synchronised from the upgraded "
+         "directory so later history is byte-compared. The resume clause is examined by the crash engine; known finding D14.",
+    note=SEQ_NOTE + " The byte-level upgrade (chunk file contents, in-place offset rewrite) is not modelled; only its pure core and its result.",
 )
